@@ -43,6 +43,7 @@ STUDY_NAME = "c12"
 EVIDENCE = {
     "rule": "one case = one simulated execution of a generated plan: a deployment, 1-4 objective directions, a constraint mode and 1-3 worker scripts of Study API calls (ask, tell COMPLETE/PRUNED/FAIL by object or by number, add_trial of finished/WAITING/RUNNING templates, enqueue_trial) executed in scheduler-chosen order at call granularity; after every call best_trial/best_value/best_trials/storage.get_best_trial are compared with a brute-force optimum of study.get_trials(). Non-trivial = at least two COMPLETE trials existed when the run ended, at least four oracle evaluations ran and the global call order alternated between workers (some worker ran a call between two calls of another). Distinct = distinct digests of (scheduling decisions, every call and its outcome, every oracle observation).",
     "assumptions": [
+        "on the SQLite-backed deployments (rdb, cached, grpc(rdb)) the oracle is not evaluated after ask/enqueue_trial calls (they cannot change the set of finished trials; a statement costs ~1 ms there); on all other deployments it runs after every call",
         "interleaving is at Study-API-call granularity: a call and the oracle evaluation after it are not pre-empted by another worker (for grpc(X) the server pool threads are still scheduler-chosen); finer interleavings of storage calls are C03's subject",
         "the documented-undefined case 'constraints recorded on some COMPLETE trials but missing on others' is not generated: a study either never records constraints or records them on every COMPLETE trial (PRUNED/FAIL trials may lack them, as with real samplers)",
         "when constraints are recorded and no COMPLETE trial is feasible the statement is silent about best_trial: ValueError and a value-optimal COMPLETE trial are both accepted",
@@ -91,10 +92,10 @@ def _script(rng: random.Random, nobj: int, mode: str, n: int) -> list[dict]:
     running = 0
     while len(out) < n:
         r = rng.random()
-        if r < 0.24 or (r < 0.62 and running == 0):
+        if r < 0.17 or (r < 0.58 and running == 0):
             out.append({"op": "ask"})
             running += 1
-        elif r < 0.62:
+        elif r < 0.58:
             st = common.weighted(rng, [("COMPLETE", 6.5), ("PRUNED", 1.5), ("FAIL", 2.0)])
             op: dict = {"op": "tell", "i": rng.randrange(8), "state": st, "by": rng.choice(["trial", "trial", "number"])}
             if st == "COMPLETE":
@@ -146,7 +147,7 @@ def gen_plan(seed: int, run: int, tier: str) -> dict:
             procs = {n: "P%d" % min(i, 1) for i, n in enumerate(names)}
     big = tier != "quick"
     sqlite = "rdb" in kind or "cached" in kind
-    total = rng.randint(6, 14 if sqlite else (28 if big else 20))
+    total = rng.randint(5, (16 if big else 10) if sqlite else (28 if big else 20))
     per = [max(1, total // nw + rng.randint(-1, 1)) for _ in names]
     workers = {n: {"proc": procs[n], "ops": _script(rng, nobj, mode, per[i])} for i, n in enumerate(names)}
     cfg = {
@@ -154,7 +155,7 @@ def gen_plan(seed: int, run: int, tier: str) -> dict:
         "directions": dirs,
         "cons_mode": mode,
         "p_line": 0.0,
-        "p_seam": rng.choice([0.2, 0.5, 0.8]),
+        "p_seam": rng.choice([0.35, 0.6, 0.85]),
         "pool": rng.choice([1, 2, 3]),
         "snapshot_interval": rng.choice([2, 3, 5, 100]),
         "read_block": rng.choice([64, 8192]),
@@ -375,6 +376,7 @@ def _run(plan: dict, sim: sched.Sim, ch: sched.Chooser, dep: deploy.Deployment) 
     nobj = len(directions)
     prefix = "%s|%s|" % (ID, kind)
     is_grpc = kind.startswith("grpc(")
+    sqlite = "rdb" in kind or "cached" in kind
     workers = sorted(plan["workers"].items())
     procs: dict[str, Any] = {}
     for n, w in workers:
@@ -491,6 +493,11 @@ def _run(plan: dict, sim: sched.Sim, ch: sched.Chooser, dep: deploy.Deployment) 
             else:
                 sim.count("op_" + op["op"])
                 sim.note("op", name, r[1])
+            if sqlite and op["op"] in ("ask", "enqueue") and r[0] == "ok":
+                # SQLite deployments cost ~1 ms per statement: skip the oracle after calls
+                # that cannot change the set of finished trials
+                sim.count("oracle_skipped_sqlite")
+                return
             v = oracle(study, directions, "client", sim)
             if v is not None and state["verdict"] is None:
                 state["verdict"] = (v[0], "after %s %s -> %s\n  %s" % (name, _short(op), r[1:], v[1]))
